@@ -575,6 +575,60 @@ loop:
 			if o.Kind.IsFunc() {
 				if r.occN[o.ID] > 0 {
 					supplied[o.ID] = true
+					res.Sources[o.ID] = "cli"
+					continue
+				}
+				if o.Kind.IsFlag() {
+					continue
+				}
+				// a callback that takes an argument and was not given: called once
+				// per value of its environment variable or else of its default tags
+				texts, src := o.Defaults, "default"
+				if o.EnvKey != "" {
+					if v, ok := in.Env[o.EnvKey]; ok {
+						src = "env"
+						if o.EnvDelim != "" {
+							texts = strings.Split(v, o.EnvDelim)
+						} else {
+							texts = []string{v}
+						}
+					}
+				}
+				if len(texts) == 0 {
+					continue
+				}
+				supplied[o.ID] = true
+				res.Sources[o.ID] = src
+				for _, tx := range texts {
+					if len(o.Choices) > 0 {
+						found := false
+						for _, ch := range o.Choices {
+							if ch == tx {
+								found = true
+							}
+						}
+						if !found {
+							defErrs = append(defErrs, &RefErr{Types: []flags.ErrorType{flags.ErrInvalidChoice}, Name: o.Display(), Why: src + " value not among choices"})
+							break
+						}
+					}
+					e, ver := RefOne(o.Kind, o.Base, tx)
+					if ver == DontCare {
+						res.Undetermined = "default/env value with unsettled conversion"
+						return
+					}
+					if ver == Reject {
+						defErrs = append(defErrs, &RefErr{Types: []flags.ErrorType{flags.ErrMarshal}, Name: o.Display(), Why: src + " value " + strconv.Quote(tx) + " not convertible"})
+						break
+					}
+					if o.Kind == KFuncSS {
+						e = []string{e.(string)}
+					}
+					res.CbLog = append(res.CbLog, CbEntry{Opt: o.ID, Arg: e})
+					if o.CbErr {
+						defErrs = append(defErrs, &RefErr{Types: []flags.ErrorType{flags.ErrMarshal}, Foreign: true, Name: o.Display(), Why: "option callback returned an error"})
+						break
+					}
 				}
 				continue
 			}
